@@ -279,6 +279,9 @@ Proof.
     intro He. rewrite He, Nat.eqb_refl in H2. discriminate.
   - unfold upd; destruct (Nat.eqb (c_root c) n) eqn:En; [apply Nat.eqb_eq in En; subst n|exact Hw].
     destruct H0 as [H0|[[sk H0]|H0]]; congruence.
+  - (* FSX: never on the virtual root *)
+    unfold upd; destruct (Nat.eqb (c_root c) n) eqn:En; [apply Nat.eqb_eq in En; subst n|exact Hw].
+    exfalso. unfold on_virtual in H1. rewrite Hx in H1. cbn [andb ev_node] in H1. rewrite Nat.eqb_refl in H1. discriminate.
   - unfold upd; destruct (Nat.eqb (c_root c) n) eqn:En; [apply Nat.eqb_eq in En; subst n|exact Hw].
     destruct H0 as [H0|H0]; congruence.
 Qed.
